@@ -82,6 +82,19 @@ def exits_always(stmts):
     return False
 
 
+def after_if(s):
+    """facts that hold when control falls out of an if/elif chain"""
+    if exits_always(s.body):
+        out = list(atoms(s.test, False))
+        if s.orelse:
+            if len(s.orelse) == 1 and isinstance(s.orelse[0], ast.If):
+                out += after_if(s.orelse[0])
+        return out
+    if s.orelse and exits_always(s.orelse):
+        return list(atoms(s.test, True))
+    return []
+
+
 class Guards:
     """Dominating guard context of every statement and expression of a function.
 
@@ -111,10 +124,8 @@ class Guards:
         facts = tuple(facts)
         for s in stmts:
             self._stmt(s, facts, loops)
-            if isinstance(s, ast.If) and exits_always(s.body) and not exits_always(s.orelse or [ast.Pass()]):
-                facts = facts + tuple(atoms(s.test, False))
-            elif isinstance(s, ast.If) and s.orelse and exits_always(s.orelse) and not exits_always(s.body):
-                facts = facts + tuple(atoms(s.test, True))
+            if isinstance(s, ast.If):
+                facts = facts + tuple(after_if(s))
             elif isinstance(s, ast.Assert):
                 facts = facts + tuple(atoms(s.test, True))
             # a (re)assignment invalidates facts that mention the assigned names
@@ -208,6 +219,7 @@ def fact_in(fact, facts):
 
 
 def assigned_names(s):
+    """names rebound by a statement: plain names, and dotted paths (`self.x`) for attribute targets"""
     out = set()
     tg = []
     if isinstance(s, ast.Assign):
@@ -219,9 +231,15 @@ def assigned_names(s):
     elif isinstance(s, ast.With):
         tg = [i.optional_vars for i in s.items if i.optional_vars is not None]
     for t in tg:
-        for n in ast.walk(t):
+        for n in ([t] if not isinstance(t, (ast.Tuple, ast.List)) else t.elts):
             if isinstance(n, ast.Name):
                 out.add(n.id)
+            elif isinstance(n, ast.Attribute):
+                out.add(src(n))
+            elif isinstance(n, ast.Subscript):
+                out.add(src(n.value) + '[')
+            elif isinstance(n, ast.Starred) and isinstance(n.value, ast.Name):
+                out.add(n.value.id)
     return out
 
 
@@ -229,9 +247,14 @@ def mentions(fact, names):
     import re as _re
     if fact[0] == '|':
         return any(mentions(a, names) for alt in fact[1] for a in alt)
-    toks = set(_re.findall(r'[A-Za-z_]\w*', fact[0]))
-    # a fact about `x.attr` is killed only by rebinding the root name x
-    return bool(toks & names)
+    text = fact[0]
+    for nm in names:
+        if '.' in nm or nm.endswith('['):
+            if nm in text:
+                return True
+        elif _re.search(r'(?<![\w.])' + _re.escape(nm) + r'(?!\w)', text):
+            return True
+    return False
 
 
 # ---------------------------------------------------------------------------
